@@ -226,6 +226,23 @@ def oracle(program, mods):
         for clause, msg in info['findings']:
             if clause in CLAUSES and clause not in pre_clauses:
                 failures.append(('C17/invalid-after-modify/%s' % clause, 'valid-image', msg[:300]))
+        # what an independent reader sees under every ISO9660 / Joliet name (the library's own API reads lengths from the shared
+        # inode, so a record that was not rewritten does not show there)
+        try:
+            from vf.indep.views import iso_views
+            iv = iso_views(final, info)
+            want_v = model_view(m)
+            relocs = bool(m.relocated_dirs())
+            for ns in ('jol',) if relocs else ('iso', 'jol'):
+                if iv.get(ns) is None or want_v.get(ns) is None:
+                    continue
+                for ns2, path, a, b in diff_views({ns: iv[ns]}, {ns: want_v[ns]}, ignore_mode=True):
+                    if a is None or b is None or a[0] != 'file' or b[0] != 'file':
+                        continue
+                    failures.append(('C17/after-modify/independent-reader/%s/%s' % (ns, 'length' if a[1] != b[1] else 'content'), 'content',
+                                     'after modify_file_in_place an independent reader finds %s path %r as %r, expected %r' % (ns, (path or '')[:70], a[:3], b[:3])))
+        except Exception as e:  # noqa  (harness)
+            run.c17.add('independent-view-failed')
         new = open_image(final)
         if isinstance(new, Exception):
             failures.append(('C17/reopen/' + exc_signature(new), 'valid-image', 'the modified image file cannot be opened: %s: %s' % (type(new).__name__, new)))
